@@ -13,3 +13,6 @@ open Just.C10
 #print axioms recipe_roundtrip
 #print axioms assignment_roundtrip
 #print axioms alias_roundtrip
+#print axioms file_roundtrip
+#print axioms file_roundtrip_exact
+#print axioms file_format_idempotent
